@@ -341,8 +341,8 @@ let check_setfile_text acc st =
   record acc ~key:("text" ^ text) ~nontrivial:(List.length lines >= 2) ~klass:"setfile_text" case;
   let setfile = Filename.concat dir "set.fileset" in
   let oc = open_out_bin setfile in output_string oc text; close_out oc;
-  let model = List.map string_of_nl (setfile_names (nl_of_string dir) (nl_of_string text)) in
-  let expect = List.sort_uniq compare (List.filter Sys.file_exists model) in
+  (* model/Setfile.v: loaded_names (T07g_loaded_entries), the existence of a path being the file system's answer *)
+  let expect = List.map string_of_nl (loaded_names (fun p -> Sys.file_exists (string_of_nl p)) (nl_of_string dir) (nl_of_string text)) in
   (match in_child (fun () -> "DONE" ^ Marshal.to_string (c_my_fileset_names setfile) []) with
    | Exited (_, s) when String.length s > 4 && String.sub s 0 4 = "DONE" ->
      let got : string list = Marshal.from_string s 4 in
